@@ -12,6 +12,7 @@ type Injection struct {
 	Kind string `json:"kind"`
 	Site int    `json:"site"` // selects among the eligible sites of the program
 	Var  int    `json:"var"`  // selects the variant of the kind
+	Deep bool   `json:"deep"` // prefer a site inside a function, loop, switch or labelled statement (when there is one)
 }
 
 // Injected is a program made invalid by construction.
@@ -346,7 +347,8 @@ var Kinds = map[string][]variant{
 		{text: "x = { get a ( ) { } , get a ( ) { } } ;", known: "C04-OBJLIT-NAME-CLASH"},
 		{text: "x = { set a ( v ) { } , \"a\" : 1 } ;", known: "C04-OBJLIT-NAME-CLASH"},
 		{text: "x = { get a ( b ) { } } ;", known: "C04-ACCESSOR-ARITY"},
-		{text: "x = { set a ( ) { } } ;", known: "C04-ACCESSOR-ARITY"},
+		{text: "x = { set a ( ) { } } ;", known: "C04-SETTER-NO-PARAMETER"},
+		{text: "x = { get b ( ) { } , set 1e2 ( ) { } } ;", known: "C04-SETTER-NO-PARAMETER"},
 		{text: "x = { set a ( b , c ) { } } ;", known: "C04-ACCESSOR-ARITY"},
 		{text: "switch ( a ) {", known: "C04-SWITCH-UNTERMINATED", canon: true, atEnd: true},
 		{text: "switch ( a ) { case 1 : b ;", known: "C04-SWITCH-UNTERMINATED", canon: true, atEnd: true},
@@ -501,6 +503,16 @@ func lexVariant(text string) []minijs.Token {
 	return out
 }
 
+// LexTokens turns a space separated token spelling ("a = ( b ) ;") into a token list; used for
+// hand written regression cases.
+func LexTokens(text string) []minijs.Token {
+	toks := lexVariant(text)
+	for i := range toks {
+		toks[i].NoLTBefore = false
+	}
+	return toks
+}
+
 // Prefix is the side-effecting head of every rejection case: a host call, a global assignment,
 // a declaration with a host call, a property of the global object.
 var Prefix = lexVariant("hit ( 1 ) ; g1 = 1 ; var g2 = hit ( 2 ) ; this . g3 = [ hit ] ; function g4 ( ) { } hit ( 3 ) ;")
@@ -528,7 +540,7 @@ func isOperatorTok(t minijs.Token) bool {
 // program (the caller discards the case).
 func Inject(prog *minijs.Node, inj Injection) (res Injected, ok bool) {
 	mod := func(x, m int) int {
-		x %= m
+		x = Scramble(x) % m
 		if x < 0 {
 			x += m
 		}
@@ -609,6 +621,17 @@ func Inject(prog *minijs.Node, inj Injection) (res Injected, ok bool) {
 	}
 	if len(elig) == 0 {
 		return res, false
+	}
+	if inj.Deep {
+		var deep []site
+		for _, s := range elig {
+			if s.ctx.depth > 0 || s.ctx.inIter || s.ctx.inSwitch || len(s.ctx.labels) > 0 {
+				deep = append(deep, s)
+			}
+		}
+		if len(deep) > 0 {
+			elig = deep
+		}
 	}
 	s := elig[mod(inj.Site, len(elig))]
 	m := minijs.ExprStmt(minijs.Id(marker))
